@@ -229,3 +229,35 @@ func local(n int) []int {
 	return out
 }
 `
+
+// buildExample compiles a self-contained example to SSA and returns a lookup of its functions and methods.
+func buildExample(src string) (func(name string) *ssa.Function, error) {
+	fset := token.NewFileSet()
+	f, err := parser.ParseFile(fset, "example.go", src, 0)
+	if err != nil {
+		return nil, err
+	}
+	pkg := types.NewPackage("example", "example")
+	spkg, _, err := ssautil.BuildPackage(&types.Config{}, fset, pkg, []*ast.File{f}, ssa.InstantiateGenerics)
+	if err != nil {
+		return nil, err
+	}
+	return func(name string) *ssa.Function {
+		if fn := spkg.Func(name); fn != nil {
+			return fn
+		}
+		for _, m := range spkg.Members {
+			if t, ok := m.(*ssa.Type); ok {
+				for _, recv := range []types.Type{t.Type(), types.NewPointer(t.Type())} {
+					ms := spkg.Prog.MethodSets.MethodSet(recv)
+					for i := 0; i < ms.Len(); i++ {
+						if ms.At(i).Obj().Name() == name {
+							return spkg.Prog.MethodValue(ms.At(i))
+						}
+					}
+				}
+			}
+		}
+		return nil
+	}, nil
+}
